@@ -30,6 +30,7 @@ LEVEL_TEXT += ' Added clause: two invocations with the same rule and start get t
 TECHNIQUE += '; the skip before a rule is a fixpoint (= C09.R2a)'
 TECHNIQUE += '; a memo hit hands the stored result back unchanged (= C04.R2)'
 TECHNIQUE += '; answers have no memory: one stand-in input asked for all offsets in three orders (R3b)'
+TECHNIQUE += "; is_tokn derivation decides where a rule's start offset is taken (R7 = C09.R1)"
 LEVEL_NOTE = 'Trusted: str.splitlines(True) ends lines at \\n, \\r and \\r\\n (and keeps the terminators).'
 EXPLANATION = ('Static analysis of /repo sources, TatSu not imported. split_block_lines is resolved through helper functions to '
                'its splitting primitive; regex literals are compiled to NFAs by the checker and compared by language inclusion.')
@@ -592,4 +593,15 @@ def r6_memo_hit_unchanged(a, tier):
     return rep
 
 
-RULES = [r0_line_splitter, r1_parseinfo, r2_one_index, r3_line_index_exhaustive, r3b_answers_have_no_memory, r4_delivery, r5_skip_is_a_fixpoint, r6_memo_hit_unchanged]
+def r7_whitespace_placement(a, tier):
+    """the start offset of a rule's parse information is the position after leading whitespace: whether whitespace is skipped at a rule's entry follows from is_tokn, derived from the first cased character of its name in both back-ends (= C09.R1)"""
+    from . import c09
+    rep = c09.r1_placement(a, tier)
+    rep.rule = 'C12.R7'
+    for f in rep.findings:
+        f.rule = 'C12.R7'
+    rep.text = '[= C09.R1] ' + rep.text
+    return rep
+
+
+RULES = [r0_line_splitter, r1_parseinfo, r2_one_index, r3_line_index_exhaustive, r3b_answers_have_no_memory, r4_delivery, r5_skip_is_a_fixpoint, r6_memo_hit_unchanged, r7_whitespace_placement]
